@@ -230,7 +230,12 @@ def classify_by_sections(by_merchant, sections_config, num_months=12):
         # Convert transaction format for section_engine
         section_txns = []
         for txn in txns:
-            txn_date = datetime.strptime(txn['month'] + '-15', '%Y-%m-%d')
+            # Rebuild the real date (txn['date'] is 'MM/DD', txn['month'] is 'YYYY-MM') so
+            # that by("day") and by("week") group by the actual day, not by a fixed one
+            try:
+                txn_date = datetime.strptime(txn['month'] + '-' + txn['date'][3:5], '%Y-%m-%d')
+            except (KeyError, TypeError, ValueError):
+                txn_date = datetime.strptime(txn['month'] + '-15', '%Y-%m-%d')
             section_txns.append({
                 'amount': txn['amount'],
                 'date': txn_date,
